@@ -149,6 +149,7 @@ type frame struct {
 	closures map[ssa.Value]*ssa.MakeClosure
 	unescaped map[*ssa.Alloc]bool
 	noUndef   bool
+	nonAllocWrites map[string]bool
 	effectsOnly bool
 	loadedFrom map[ssa.Value]*loadedFrom
 	loopEntry  map[int]*State
